@@ -3,6 +3,7 @@
     case: <env> <prefix-notation term>     impl: <hex|panic> <alt hex|panic|~> <sinks>
 -/
 import Drv.Util
+import Acpi.Spec.AmlFrame
 import Drv.AmlScalars
 import Acpi.Aml.Term
 import Acpi.Spec.Aml
@@ -149,48 +150,6 @@ where
       | none => none
     | _ => none
 
-/-- opcode width of the objects that carry a PkgLength right after their opcode -/
-def pkgLenOpcodeWidth : Op → Option Nat
-  | .buf | .bufterm | .uuid | .pkg | .pkgb | .varpkg | .rt | .scope | .scoperaw | .method
-  | .if_ | .while_ | .else_ => some 1
-  | .device | .field | .powerres => some 2
-  | _ => none
-
-/-- C07 on a real length-prefixed object at the root: the PkgLength after the opcode decodes, by
-    the specification's rule, to the number of bytes from its own first byte to the end of the
-    object, in the shortest encoding that can include its own size -/
-def c07Object (op : Op) (bs : Bytes) : Option String :=
-  match pkgLenOpcodeWidth op with
-  | none => none
-  | some ow =>
-    let rest := bs.drop ow
-    match Spec.PkgLength.decode rest with
-    | none => some "no PkgLength decodes after the opcode"
-    | some (total, w) =>
-      if total ≠ rest.length then some s!"PkgLength decodes to {total}; from its first byte to the end of the object there are {rest.length} bytes"
-      else if (List.range (w - 1)).any (fun w' => (total - w) + (w' + 1) ≤ Spec.PkgLength.maxOf (w' + 1)) then
-        some s!"PkgLength of width {w} is not the shortest that can include its own size (content {total - w})"
-      else none
-
-/-- C07 on the entries of a Field at the root: every named / reserved entry's width, which
-    excludes the prefix itself, decodes to exactly the width given.  `widths` = the entries'
-    bit widths with `true` for a named entry -/
-def c07FieldEntries (bs : Bytes) (nameLen : Nat) (widths : List (Bool × Nat)) : Option String :=
-  match Spec.PkgLength.decode (bs.drop 2) with
-  | none => none            -- reported by `c07Object`
-  | some (_, w) =>
-    let rec go (fuel : Nat) (rest : Bytes) (ws : List (Bool × Nat)) (i : Nat) : Option String :=
-      match fuel, ws with
-      | _, [] => if rest.isEmpty then none else some s!"{rest.length} bytes after the last field entry"
-      | 0, _ => some "out of fuel"
-      | fuel + 1, (named, bits) :: ws =>
-        let rest := if named then rest.drop 4 else rest.drop 1
-        match Spec.PkgLength.decode rest with
-        | none => some s!"entry #{i}: width does not decode"
-        | some (v, pw) =>
-          if v ≠ bits then some s!"entry #{i}: width decodes to {v}, given {bits}" else go fuel (rest.drop pw) ws (i + 1)
-    go (widths.length + 1) (bs.drop (2 + w + nameLen + 1)) widths 0
-
 /-- case `<env> term…` impl `<hex|panic> <alt> <sinks>` -/
 def checkAml (case impl : List String) : List Fail :=
   match case with
@@ -228,7 +187,7 @@ def checkAml (case impl : List String) : List Fail :=
                       | none => [])) ++
               (match t with
                | .node op _ blobs kids =>
-                 (match c07Object op bs with
+                 (match Spec.c07Object op bs with
                   | some e => [⟨"prop", "C07", "object-pkglength", e⟩]
                   | none => []) ++
                  (if op = .field then
@@ -241,7 +200,7 @@ def checkAml (case impl : List String) : List Fail :=
                     | some (_, _, after) =>
                       let nameLen := bs.length - (2 + ((Spec.PkgLength.decode (bs.drop 2)).map (·.2)).getD 1) - after.length
                       let _ := blobs
-                      (match c07FieldEntries bs nameLen ws with
+                      (match Spec.c07FieldEntries bs nameLen ws with
                        | some e => [⟨"prop", "C07", "field-entry-width", e⟩]
                        | none => [])
                     | none => []
